@@ -1,9 +1,11 @@
 #!/bin/bash
-# usage: trymut.sh <PROP> <patch.diff> [tier]  — applies a seeded change to /repo, runs the check, reverts.
-P=$1; PATCH=$2; TIER=${3:-quick}
-cd /repo || exit 9
-if [ -n "$(git status --porcelain --untracked-files=no)" ]; then echo "repo dirty"; exit 9; fi
-git apply "$PATCH" || { echo "patch does not apply"; exit 9; }
-cd /verif && ./check $P $TIER > /tmp/trymut-$P.log 2>&1; rc=$?
-cd /repo && git checkout -- . 
+# usage: trymut.sh <PROP> <patch.diff> [tier] — runs the check of <PROP> against a scratch worktree of /repo
+# (HEAD) with the seeded change applied; /repo itself and /verif/evidence are not touched.
+P=$1; PATCH=$(readlink -f "$2"); TIER=${3:-quick}
+W=/tmp/trymut-repo-$$
+git -C /repo worktree add --detach $W HEAD -q || exit 9
+( cd $W && git apply "$PATCH" ) || { echo "patch does not apply"; git -C /repo worktree remove --force $W; exit 9; }
+mkdir -p /tmp/trymut-evid-$$
+cd /verif && VERIF_REPO=$W VERIF_EVID=/tmp/trymut-evid-$$ ./check $P $TIER > /tmp/trymut-$P.log 2>&1; rc=$?
+git -C /repo worktree remove --force $W; rm -rf /tmp/trymut-evid-$$
 echo "rc=$rc"; grep -E "^(VIOLATION|INCONCLUSIVE|HELD)" /tmp/trymut-$P.log | head -5; grep -E "^FAIL" /tmp/trymut-$P.log | cut -c1-300 | head -3
